@@ -197,6 +197,17 @@ def run_scenario(sc):
                                 r = mk_record(spec)
                                 if r not in known and r not in recs:
                                     recs.append(r)
+                extra = rsp.get("extra")
+                if extra and any(r.type == 33 for r in recs):
+                    # like a real responder: TXT and the host's addresses ride along with an SRV answer (additionals).
+                    # Their order inside the datagram is not fixed by the protocol (python-zeroconf iterates a set):
+                    # "addr-first" puts the addresses before the SRV
+                    adds = [mk_record(sp) for key in ((NAME.lower(), 16), (rsp["host"].lower(), 1), (rsp["host"].lower(), 28)) for sp in own[key]]
+                    adds = [r for r in adds if r not in known and r not in recs]
+                    addrs = [r for r in adds if r.type in (1, 28)]
+                    rest = [r for r in recs + adds if r.type not in (1, 28)]
+                    have = [r for r in recs if r.type in (1, 28)]
+                    recs = (have + addrs + rest) if extra == "addr-first" else (rest + have + addrs)
                 if recs:
                     out = DNSOutgoing(const._FLAGS_QR_RESPONSE | const._FLAGS_AA)
                     for r in recs:
@@ -216,7 +227,8 @@ def run_scenario(sc):
         for h in sc.get("prehist", []):
             q = DNSQuestion(h["name"], h["type"], const._CLASS_IN)
             zc.question_history.add_question_at_time(q, float(now0 - h["age"]), {mk_record(s, created=now0 - 1) for s in h.get("known", [])})
-        info = AsyncServiceInfo(TYPE_, sc.get("name", NAME))
+        # `server=`: an application that already knows (a spelling of) the host, or re-uses an info object
+        info = AsyncServiceInfo(TYPE_, sc.get("name", NAME), server=sc["server"]) if sc.get("server") else AsyncServiceInfo(TYPE_, sc.get("name", NAME))
         w = Watch(sim, zc, info)
 
         for ev in sc.get("events", []):
@@ -271,7 +283,20 @@ def run_scenario(sc):
             obs["t0"] = sim.loop.ms
             w.open("S", sim.loop.ms)
             try:
-                r = await info.async_request(zc, sc["timeout"], forced)
+                if sc.get("via") == "get_service_info":
+                    # through Zeroconf.async_get_service_info, which builds the info object itself: hand it ours
+                    import zeroconf._core as core
+
+                    o_cls = core.AsyncServiceInfo
+                    core.AsyncServiceInfo = lambda t, n: info if (t, n) == (TYPE_, sc.get("name", NAME)) else o_cls(t, n)
+                    try:
+                        r = await zc.async_get_service_info(TYPE_, sc.get("name", NAME), sc["timeout"], forced)
+                    finally:
+                        core.AsyncServiceInfo = o_cls
+                    obs["entry_object_ok"] = r is None or r is info
+                    r = r is not None
+                else:
+                    r = await info.async_request(zc, sc["timeout"], forced)
                 w.cur["ret"] = bool(r)
                 obs["result"] = bool(r)
             except asyncio.CancelledError:
@@ -320,7 +345,8 @@ def impl_line(b):
 
 
 def model_line(sc, obs):
-    parts = ["c18", C.hs(sc.get("name", NAME)), str(int(sc["timeout"])), str(sc.get("forced", 0)), str(len(obs["blocks"]))]
+    parts = ["c18", C.hs(sc.get("name", NAME)), str(int(sc["timeout"])), str(sc.get("forced", 0)),
+             ("s" + C.hs(sc["server"])) if sc.get("server") else "-", str(len(obs["blocks"]))]
     for b in obs["blocks"]:
         cache = "%d %s" % (len(b["cache"]), " ".join(r["line"] for r in b["cache"]))
         hist = "%d %s" % (len(b["hist"]), " ".join(b["hist"]))
@@ -385,7 +411,8 @@ def oracle(sc, obs):
     for b in blocks:
         for r in b["cache"] + b["recs"]:
             reads.append((r, b["now"]))
-    if (fin["server"], fin["port"]) != (None, None) or fin["weight"] or fin["priority"]:
+    untouched = (fin["server"], fin["port"], fin["priority"], fin["weight"]) == (sc.get("server") or None, None, 0, 0)   # as constructed
+    if not untouched:
         ok = any(r["kind"] == "DNSService" and r["name"].lower() == name.lower() and not expired(r, t)
                  and r["srv"] == (fin["server"], fin["port"], fin["priority"], fin["weight"]) for r, t in reads)
         if not ok:
@@ -449,12 +476,40 @@ def oracle(sc, obs):
                 continue         # may have been suppressed as a duplicate question
             out.append(("C18:omitted-unheld", "query #%d (%s) omits the type-%d question for %s although no unstale answer is held"
                         % (i + 1, "QU" if b["asked"] == 1 else "QM", qtype, qname)))
+    # --- a lookup that was sent an unexpired address of its host before its deadline succeeds (D22 / D15): the lookup failed, ended
+    #     with host H, and an unexpired address record of H was handed to it (an `update` block) before it returned, in the datagram
+    #     that taught it H or in a later one
+    lost = None
+    if obs["result"] is False and fin["server_key"] is not None:
+        H = fin["server_key"]
+        iH = None
+        for i in range(len(blocks) - 1, -1, -1):
+            if blocks[i]["fields"]["server_key"] == H:
+                iH = i
+            else:
+                break
+        if iH is not None:
+            # only records handed over in the block that taught it the host, or later: an address that came in an earlier
+            # datagram is the cache reload's business (checked by the model / C18_reload_all on that block's cache snapshot)
+            for b in blocks[iH:]:
+                if b["k"] != "U" or b["now"] >= obs["t_ret"]:
+                    continue
+                for r in b["recs"]:
+                    if valid_addr(r) and r["type"] in (1, 28) and r["cls"] == 1 and r["name"].lower() == H and not expired(r, b["now"]):
+                        lost = (r["addr"], b["now"] - obs["t0"])
+    if lost is not None:
+        out.append(("C18:address-before-srv-lost", "address %s of the service's host was delivered to the lookup %d ms after its start, unexpired, "
+                    "yet it returned False at %d ms without any address (the address record preceded the SRV record in its datagram: it was "
+                    "dropped while the host was unknown, and the SRV branch re-read a cache that did not hold it yet)"
+                    % (lost[0], lost[1], obs["t_ret"] - obs["t0"])))
     # --- with a responder that answers every question, the questions the lookup must ask lead to success
-    if sc.get("liveness") and obs["result"] is not True:
+    elif sc.get("liveness") and obs["result"] is not True:
         out.append(("C18:responder-not-heard", "a responder owning the instance answered every question within %d ms, "
                     "yet the lookup failed at its timeout of %d ms" % (sc["responder"]["delay"], timeout)))
     if obs.get("errors"):
         out.append(("C18:exception", "exception in the event loop: %s" % obs["errors"][0]))
+    if obs.get("entry_object_ok") is False:
+        out.append(("C18:entry-point-object", "async_get_service_info returned an object other than the one it ran the lookup on"))
     if obs.get("listener_left"):
         out.append(("C18:listener-left", "the lookup was still registered as a listener after it returned"))
     return out
@@ -474,6 +529,7 @@ def gen_scenario(rng, idx):
         if i >= 1 or False:
             delay = 999
     sc = {"timeout": timeout, "forced": rng.choice([0, 0, 0, 1, 2]), "draws": draws, "simseed": rng.randint(0, 10**6),
+          "via": "get_service_info" if rng.random() < 0.15 else None,
           "maxdelay": rng.choice([0, 0, 3, 20]), "warmup": rng.choice([0, 0, 137, 9990, 9999]), "pre": [], "events": [], "prehist": []}
 
     def age_for(ttl):
@@ -505,6 +561,8 @@ def gen_scenario(rng, idx):
 
     host = rng.choice(HOSTS)
     other = [h for h in HOSTS if h != host][0]
+    if sc["via"] is None and rng.random() < 0.08:
+        sc["server"] = rng.choice(HOST_SPELLINGS[rng.choice([host, host, other])] + [host.upper()])
     # ---- cache before the lookup
     mode = rng.random()
     if mode < 0.85:
@@ -600,13 +658,15 @@ def gen_responder_scenario(rng, idx):
     stale or expired-but-unpurged SRV/TXT with no fresh copy in particular; nothing else arrives"""
     host = rng.choice(HOSTS)
     rsp = {"host": host, "port": rng.choice([80, 8080]), "prio": 0, "weight": 0, "text": rng.choice(["03613d30", "", "03613d31"]),
-           "a": rng.sample(V4, rng.randint(0, 2)), "aaaa": [], "ttl": rng.choice([120, 120, 4500, 10]), "delay": rng.choice([0, 1, 7, 20, 50])}
+           "a": rng.sample(V4, rng.randint(0, 2)), "aaaa": [], "ttl": rng.choice([120, 120, 4500, 10]), "delay": rng.choice([0, 1, 7, 20, 50]),
+           "extra": rng.choice([None, None, "srv-first", "addr-first"])}
     if not rsp["a"] or rng.random() < 0.3:
         rsp["aaaa"] = rng.sample(V6, rng.randint(1, 2))
     timeout = rng.choice([1000, 1500, 3000, 10000, rng.randint(1000, 10000)])
     sc = {"timeout": timeout, "forced": rng.choice([0, 0, 0, 1, 2]), "draws": [rng.choice([20, 120, rng.randint(20, 120)]) for _ in range(12)],
           "simseed": rng.randint(0, 10**6), "maxdelay": rng.choice([0, 0, 3]), "warmup": rng.choice([0, 0, 137, 9000]),
-          "pre": [], "events": [], "prehist": [], "responder": rsp, "liveness": True}
+          "pre": [], "events": [], "prehist": [], "responder": rsp, "liveness": True,
+          "via": "get_service_info" if rng.random() < 0.15 else None}
 
     def age_state(ttl, states):
         st = rng.choice(states)
